@@ -80,7 +80,8 @@ class C04(Prop):
     time_limit = {'quick': 60, 'thorough': 900}
     rule = ('random adapter graphs (depth 1-4) of ExtendedToOriginalDecorator / TestResultDecorator / Tagger / ThreadsafeForwardingResult / '
             'MultiTestResult / ExtendedToStreamDecorator(+StreamFailFast) over genuine testtools.TestResult / TextTestResult leaves with failfast '
-            'set or not on each leaf before wrapping; histories of 0-6 tests x 1-2 runs, outcomes as exc_info / details / plain, failfast assigned '
+            'set or not on each leaf before wrapping, and on 30% of the TestResultDecorator / Tagger layers as a plain instance attribute assigned '
+            'before or after the objects above the layer were built; histories of 0-6 tests x 1-2 runs, outcomes as exc_info / details / plain, failfast assigned '
             'on the outer object and stop() at random positions, 10% damaged histories; 30% of the cases also run testtools.run (TestProgram, in '
             'process) on a module of 0-6 real TestCases with chosen outcomes, with and without -f. thorough adds every history of <= 2 tests '
             '(6 outcomes) x {failfast before, after, never} x stop position over 12 graphs. non-trivial = an adapter above a leaf and a failing '
@@ -88,7 +89,11 @@ class C04(Prop):
     assumptions = ['TextTestResult output is parsed into (banner, sections, count, verdict), not compared character by character; times are ignored',
                    'exit status: TestProgram is run in-process with stdout captured (SystemExit caught); unittest loader / argument parsing modelled, not verified',
                    'ExtendedToStreamDecorator / TextTestResult are only used after startTestRun (outside: AttributeError)',
-                   'failfast is assigned only on objects that have the attribute (not on TestResultDecorator / Tagger)',
+                   'failfast on a TestResultDecorator / Tagger layer is a plain instance attribute assigned by the harness on that object, either at '
+                   'once or after the whole graph is built (never in the middle of a history); a bare decorator carrying the attribute and reported '
+                   'to directly is out of scope (nothing in a decorator acts on the attribute: it takes effect through the '
+                   'ExtendedToOriginalDecorator that TestCase.run / MultiTestResult / ThreadsafeForwardingResult build around it); the history '
+                   'assigns failfast only on the outer object and only if it has the attribute',
                    'suites stop dispatching: modelled as "no further test after shouldStop" and checked through testtools.run -f on real TestCases']
 
     manifest = {
@@ -97,7 +102,7 @@ class C04(Prop):
                 'is false exactly when an error, failure or unexpected success was reported since the last startTestRun; every '
                 'TextTestResult writes banner, one section per problem, the number of tests started and OK / FAILED(k) in agreement with it; '
                 'with failfast reading true (also on a directly used ThreadsafeForwardingResult, D15) the first bad outcome sets shouldStop, which then stays set until startTestRun, and is never set earlier (only after stop() or a bad outcome with failfast set somewhere); stop() on any node reaches every result below it; wrapping - and every startTestRun on any wrapper - leaves the failfast of every result alone (D14), and each result by itself '
-                'stops exactly by its own setting (or by a fail-fast decorator above it); exit '
+                'stops exactly by its own setting or by a fail-fast ExtendedToOriginalDecorator above it (failfast on the result it wraps, or assigned as an attribute on the TestResultDecorator / Tagger layer it wraps, before or after wrapping: in both cases every result below stops at the first bad outcome); exit '
                 'status and summary of testtools.run for a module of test cases with and without -f.  The hand-written model is tied to '
                 'the code by a differential check (random + bounded-exhaustive graphs x histories, TestProgram run in process).',
         'note': 'partial: everything through ExtendedToStreamDecorator + StreamFailFast is validated by the correspondence only (no theorem); the '
@@ -150,7 +155,7 @@ class C04(Prop):
 
     # ----- generators
     def gen_hist(self, rng, shape, kinds):
-        can_ff = shape[0] not in ('deco', 'tagger') and rng.random() < 0.5     # half of the histories never assign failfast
+        can_ff = shape[0] not in ('deco', 'tagger') and rng.random() < (0.25 if 'ffbox' in kinds else 0.5)     # half of the histories never assign failfast
         h = []
 
         def noise(p):
@@ -198,12 +203,15 @@ class C04(Prop):
         inner = ('etod', 'deco', 'tagger', 'tfr', 'tfr', 'multi', 'multi', 'multi', 'e2s')
         leaves = ('tt', 'tt', 'text')
         d = rng.choice([0, 1, 1, 2, 2, 2, 3, 3])
-        shape = R.gen_shape(rng, d, leaves=leaves, inner=inner, ff=rng.random() < 0.7)
+        shape = R.gen_shape(rng, d, leaves=leaves, inner=inner, ff=rng.random() < 0.7, ffbox=0.3)
+        if shape[0] == 'ffbox' and rng.random() < 0.8:
+            shape = rng.choice([['etod', shape], ['multi', ['etod', shape]], ['tfr', ['etod', shape]], shape[3]])
         if rng.random() < 0.15:
             # a multiplexer over results with different failfast settings, the failfast one usually not first
             def leaf(ff):
                 l = [rng.choice(['tt', 'tt', 'text']), ff]
-                return rng.choice([l, l, ['tfr', ['etod', l]], ['deco', l], ['multi', ['etod', l]]])
+                return rng.choice([l, l, ['tfr', ['etod', l]], ['deco', l], ['multi', ['etod', l]],
+                                   ['ffbox', rng.random() < 0.5, rng.random() < 0.5, ['deco', l]]])
             flags = [rng.random() < 0.25] + [rng.random() < 0.6 for _ in range(rng.choice([1, 1, 2]))]
             shape = ['multi'] + [['etod', leaf(f)] for f in flags]
             if rng.random() < 0.4:
@@ -219,7 +227,10 @@ class C04(Prop):
         shapes = [F, T, ['text', False], ['text', True], ['etod', F], ['tfr', ['etod', F]], ['tfr', ['etod', T]],
                   ['multi', ['etod', F], ['etod', T]], ['multi', ['etod', ['text', False]], ['etod', ['tfr', ['etod', F]]]],
                   ['deco', ['etod', T]], ['e2s', ['etod', F]], ['etod', ['multi', ['etod', T], ['etod', F]]],
-                  ['multi', ['etod', T], ['etod', F]], ['multi', ['etod', F], ['etod', ['multi', ['etod', F], ['etod', T]]]]]
+                  ['multi', ['etod', T], ['etod', F]], ['multi', ['etod', F], ['etod', ['multi', ['etod', F], ['etod', T]]]],
+                  ['multi', ['etod', ['ffbox', True, True, ['deco', F]]], ['etod', F]],
+                  ['tfr', ['etod', ['ffbox', False, True, ['tagger', [1], [], F]]]],
+                  ['etod', ['ffbox', True, False, ['deco', ['multi', ['etod', F], ['etod', T]]]]]]
         outs = [(k, None if k in ('success', 'uxsuccess') else ['reason', [114]] if k == 'skip' else ['exc', 'real']) for k in R.KINDS]
         for s in shapes:
             can_ff = s[0] not in ('deco', 'tagger')
@@ -250,6 +261,7 @@ class C04(Prop):
         f = ['depth=%d' % R.depth(shape), 'calls=%s' % (len(hist) // 5 * 5), 'tests=%d' % len([c for c in hist if c[0] == 'add']),
              'runs=%d' % len([c for c in hist if c[0] == 'startTestRun']), 'root:' + shape[0]]
         f += ['node:' + k for k in sorted(set(kinds))]
+        f += ['attr:%s,%s,under-%s' % ('late' if c[1] else 'early', c[2], par) for par, c in self.boxes(shape, 'root')]
         params = [x[1] for x in self.leaf_shapes(shape)]
         f.append('leaf-failfast:' + ('none' if not any(params) else 'all' if all(params) else 'mixed-first' if params[0] else 'mixed-not-first'))
         if not any(c[0] == 'setFailfast' for c in hist):
@@ -271,6 +283,12 @@ class C04(Prop):
             f.append('stopped' if any(o[1] for o in trace[2]) else 'never-stopped')
             f.append('unsuccessful' if any(not o[0] for o in trace[2]) else 'always-successful')
         return sorted(set(f))
+
+    def boxes(self, s, parent):
+        out = [(parent, s)] if s[0] == 'ffbox' else []
+        for c in R.children(s):
+            out += self.boxes(c, s[0])
+        return out
 
     def leaf_shapes(self, s):
         if s[0] in ('tt', 'text'):
@@ -294,6 +312,19 @@ class C04(Prop):
                 if s[0] in ('deco', 'tagger') and any(c[0] == 'setFailfast' for c in hist):
                     continue
                 yield [s, hist, prog]
+        for s in self.unbox(shape):
+            yield [s, hist, prog]
+
+
+    def unbox(self, s):
+        """one failfast attribute of a decorator layer assigned early instead of late"""
+        if s[0] == 'ffbox' and s[1]:
+            yield ['ffbox', False] + s[2:]
+        k = s[0]
+        idx = [3] if k in ('tagger', 'ffbox') else list(range(1, len(s))) if k in ('etod', 'deco', 'tfr', 'e2s', 'multi') else []
+        for i in idx:
+            for c in self.unbox(s[i]):
+                yield s[:i] + [c] + s[i + 1:]
 
 
 PROP = C04()
